@@ -12,7 +12,7 @@ import (
 
 // Scalarise computes one round of two local, semantics-preserving rewrites that undo "state moved into a struct":
 //
-//	S1  a local pointer that is bound once to the address of a local struct variable (`p := &x`, the form the
+//	S1  a local pointer that is bound once to the address of a local struct (or slice) variable (`p := &x`, the form the
 //	    inliner gives a `*T` parameter) and never re-bound is replaced by the variable itself at every use
 //	    (`p.f` → `x.f`, `*p` → `x`, any other use → `(&x)`);
 //	S2  a local struct variable that is declared with its zero value and only ever used through selections of its
@@ -288,8 +288,15 @@ func (pl *planner) scalarFunc(fd *ast.FuncDecl, file *ast.File) {
 			return nil
 		}
 		v := local(pl.info.Uses[id])
-		if v == nil || structOf(v.Type()) == nil {
+		if v == nil {
 			return nil
+		}
+		// a struct (state gathered into a struct and handed to helpers by pointer) or a slice (a list handed to a
+		// helper that appends to it through the pointer)
+		if structOf(v.Type()) == nil {
+			if _, isSlice := v.Type().Underlying().(*types.Slice); !isSlice {
+				return nil
+			}
 		}
 		return v
 	}
